@@ -36,3 +36,136 @@ WITNESSES = [
     dict(id="c08-ok-inline", prop="C08", file=E, expect=None,
          old="        substituted = self.sympy.subs(order_substitutions(subs))", new="        ordered = order_substitutions(subs)\n        substituted = self.sympy.subs(ordered)"),
 ]
+
+M = "misc.py"
+S = "simplify.py"
+R = "reduce_expr.py"
+
+# ---------------------------------------------------------------- behaviour-preserving refactorings of new kinds
+WITNESSES += [
+    # dict.get  ->  try / except KeyError
+    dict(id="c08-ok-lookup-try", prop="C08", file=I, expect=None,
+         old="            symbol = self._symbols[space][spin].get(idx, None)\n",
+         new="            try:\n                symbol = self._symbols[space][spin][idx]\n            except KeyError:\n                symbol = None\n"),
+    # while loop that grows a list  ->  closed-form number of rounds + finite generator
+    dict(id="c08-ok-lowest-generator", prop="C08", file=I, expect=None,
+         old="    idx = list(base)\n    required = len(used) + n  # the number of indices present in the term\n    suffix = 1\n"
+             "    while len(idx) < required:\n        idx.extend(s + str(suffix) for s in base)\n        suffix += 1\n",
+         new="    required = len(used) + n  # the number of indices present in the term\n"
+             "    rounds = max(1, -(-required // len(base)))\n\n"
+             "    def pool():\n        for s in base:\n            yield s\n        for suffix in range(1, rounds):\n"
+             "            for s in base:\n                yield s + str(suffix)\n    idx = pool()\n"),
+    # destructive consumption (reverse + pop)  ->  cursor per key
+    dict(id="c08-ok-getsymbols-cursor", prop="C08", file=I, expect=None,
+         old="    for val in symbols.values():\n        val.reverse()\n    ret = [symbols[(index_space(idx), spin)].pop()\n"
+             "           for idx, spin in zip(indices, spins)]\n    assert not any(symbols.values())  # ensure we consumed all indices\n    return ret\n",
+         new="    position = {key: 0 for key in symbols}\n    ret = []\n    for idx, spin in zip(indices, spins):\n"
+             "        key = (index_space(idx), spin)\n        ret.append(symbols[key][position[key]])\n        position[key] += 1\n"
+             "    # ensure we consumed all indices\n    assert all(position[key] == len(val) for key, val in symbols.items())\n    return ret\n"),
+    # insert(0, x) / append interleaved  ->  three lists, reverse, concatenation
+    dict(id="c08-ok-order-three-lists", prop="C08", file=I, expect=None,
+         edits=[("    subs = []\n    final_subs = []\n    for o, n in subsdict.items():", "    subs = []\n    chained = []\n    final_subs = []\n    for o, n in subsdict.items():"),
+                ("                final_subs.insert(0, (o, n))", "                chained.append((o, n))"),
+                ("    subs.extend(final_subs)\n    return subs", "    chained.reverse()\n    return subs + chained + final_subs")]),
+    # another algorithm for composing the transpositions (identity-initialised map, values swapped)
+    dict(id="c08-ok-permute-identity-map", prop="C08", file=E, expect=None,
+         old="            addition = {p: q, q: p}\n            for old, new in sub.items():\n                if new is p:\n                    sub[old] = q\n"
+             "                    del addition[p]\n                elif new is q:\n                    sub[old] = p\n                    del addition[q]\n"
+             "            if addition:\n                sub.update(addition)\n",
+         new="            for s in (p, q):\n                sub.setdefault(s, s)\n            for old, new in sub.items():\n                if new is p:\n"
+             "                    sub[old] = q\n                elif new is q:\n                    sub[old] = p\n"),
+    # dict of sets built up front  ->  set recomputed per group (loop fission)
+    dict(id="c08-ok-contracted-blocked-set", prop="C08", file=E, expect=None,
+         edits=[("        used = {}\n        for s in set(self.target):\n            if (key := s.space_and_spin) not in used:\n                used[key] = set()\n            used[key].add(s.name)\n",
+                 "        target_names = [(s.space_and_spin, s.name) for s in set(self.target)]\n"),
+                ("            new_idx = get_lowest_avail_indices(len(idx_list),\n                                               used.get((space, spin), []),\n                                               space)",
+                 "            blocked = {name for key, name in target_names\n                       if key == (space, spin)}\n            new_idx = get_lowest_avail_indices(len(idx_list), blocked, space)")]),
+    # while <cond>  ->  while True / break
+    dict(id="c08-ok-generic-while-true", prop="C08", file=I, expect=None,
+         old="            while n > len(self._generic_indices[space][spin]):\n                self._gen_generic_idx(space, spin)\n",
+         new="            while True:\n                if len(self._generic_indices[space][spin]) >= n:\n                    break\n                self._gen_generic_idx(space, spin)\n"),
+    # reverse + pop()  ->  pop(0)
+    dict(id="c08-ok-minimize-pop-front", prop="C08", file=I, expect=None,
+         edits=[("            min_symbols = get_symbols(min_names, spins)\n            min_symbols.reverse()\n", "            min_symbols = get_symbols(min_names, spins)\n"),
+                ("        min_s = minimal_indices[idx_key].pop()\n", "        min_s = minimal_indices[idx_key].pop(0)\n")]),
+    # items() iteration  ->  key iteration + lookup (provenance through a subscript)
+    dict(id="c08-ok-simplify-keys", prop="C08", file=S, expect=None,
+         old="        for other_n, sub in matches.items():\n            res += terms[other_n].subs(sub)\n",
+         new="        for other_n in matches:\n            res += terms[other_n].subs(matches[other_n])\n"),
+    # bound method stored in a local before it is called
+    dict(id="c08-ok-bound-method-alias", prop="C08", file=E, expect=None,
+         old="        substituted = self.sympy.subs(sub)\n        # ensure that the substitutions are valid\n",
+         new="        substitute = self.sympy.subs\n        substituted = substitute(sub)\n        # ensure that the substitutions are valid\n"),
+    # membership test  ->  try / except in the singleton
+    dict(id="c08-ok-singleton-try", prop="C08", file=M, expect=None,
+         old="        if cls not in cls._instances:\n            cls._instances[cls] = (\n                super(Singleton, cls).__call__(*args, **kwargs)\n            )\n        return cls._instances[cls]\n",
+         new="        try:\n            return cls._instances[cls]\n        except KeyError:\n            instance = super(Singleton, cls).__call__(*args, **kwargs)\n"
+             "            cls._instances[cls] = instance\n            return instance\n"),
+    # comprehension  ->  map / lambda
+    dict(id="c08-ok-gen-map-lambda", prop="C08", file=I, expect=None,
+         old="        new_idx = [idx + counter for idx in self.base[space]\n                   if idx + counter not in used_names]",
+         new="        new_idx = [name for name in map(lambda b: b + counter, self.base[space])\n                   if name not in used_names]"),
+    # if / elif chain  ->  table-driven loop
+    dict(id="c08-ok-space-table", prop="C08", file=I, expect=None,
+         old="        if self.assumptions0.get(\"below_fermi\"):\n            return \"occ\"\n        elif self.assumptions0.get(\"above_fermi\"):\n            return \"virt\"\n        else:\n            return \"general\"\n",
+         new="        for assumption, space in ((\"below_fermi\", \"occ\"), (\"above_fermi\", \"virt\")):\n            if self.assumptions0.get(assumption):\n                return space\n        return \"general\"\n"),
+    dict(id="c08-ok-new-symbol-table", prop="C08", file=I, expect=None,
+         old="        assumptions = {}\n        if space == \"occ\":\n            assumptions[\"below_fermi\"] = True\n        elif space == \"virt\":\n            assumptions[\"above_fermi\"] = True\n        elif space != \"general\":\n            raise ValueError(f\"Invalid space {space}\")\n",
+         new="        fermi = {\"occ\": \"below_fermi\", \"virt\": \"above_fermi\", \"general\": None}\n        if space not in fermi:\n            raise ValueError(f\"Invalid space {space}\")\n        assumptions = {}\n        if fermi[space] is not None:\n            assumptions[fermi[space]] = True\n"),
+    # helper extracted into a nested function that forwards its parameter (callers are checked instead)
+    dict(id="c08-ok-forwarding-helper", prop="C08", file=E, expect=None,
+         old="        substituted = self.sympy.subs(order_substitutions(subs))\n",
+         new="        def apply(ordered):\n            return self.sympy.subs(ordered)\n        substituted = apply(order_substitutions(subs))\n"),
+]
+
+# ---------------------------------------------------------------- breaking edits for the new checks
+WITNESSES += [
+    dict(id="c08-getsymbols-order", prop="C08", file=I, expect="R08d",
+         old="    for val in symbols.values():\n        val.reverse()\n    ret = [symbols", new="    ret = [symbols"),
+    dict(id="c08-initial-counter", prop="C08", file=I, expect="R08d", old="    _initial_counter = 3\n", new="    _initial_counter = 1\n"),
+    dict(id="c08-spin-swapped", prop="C08", file=I, expect="R08d",
+         old="            if spin == \"a\":\n                assumptions[\"alpha\"] = True\n            elif spin == \"b\":\n                assumptions[\"beta\"] = True",
+         new="            if spin == \"a\":\n                assumptions[\"beta\"] = True\n            elif spin == \"b\":\n                assumptions[\"alpha\"] = True"),
+    dict(id="c08-generic-from-end", prop="C08", file=I, expect="R08d",
+         old="            idx = self._generic_indices[space][spin][:n]", new="            idx = self._generic_indices[space][spin][-n:]"),
+    dict(id="c08-dup-in-request", prop="C08", file=I, expect="R08d",
+         old="            symbol = self._new_symbol(idx, space, spin)\n            self._symbols[space][spin][idx] = symbol\n            ret[key].append(symbol)\n",
+         new="            symbol = self._new_symbol(idx, space, spin)\n            ret[key].append(symbol)\n            self._symbols[space][spin].setdefault(idx, symbol)\n"
+             "            symbol = self._new_symbol(idx, space, spin)\n            self._symbols[space][spin][idx] = symbol\n"),
+    dict(id="c08-singleton-always-new", prop="C08", file=M, expect="R08c",
+         old="        if cls not in cls._instances:\n", new="        if cls not in cls._instances or args:\n            pass\n        if True:\n"),
+    dict(id="c08-registry-getattr", prop="C08", file=E, expect="R08c",
+         old="        generic = Indices().get_generic_indices(**kwargs)", new="        getattr(Indices(), '_generic_indices')['occ'][''].clear()\n        generic = Indices().get_generic_indices(**kwargs)"),
+    dict(id="c08-generic-not-fresh", prop="C08", file=E, expect="R08e",
+         old="            new_indices = generic[key]\n", new="            new_indices = old_indices\n"),
+    dict(id="c08-contracted-flipped", prop="C08", file=E, expect="R08e",
+         old="            return tuple(s for s, n in self._idx_counter if n)\n", new="            return tuple(s for s, n in self._idx_counter if n > 1)\n"),
+    dict(id="c08-other-spin-blocks", prop="C08", file=E, expect="R08e",
+         old="            if (key := s.space_and_spin) not in used:\n                used[key] = set()\n            used[key].add(s.name)\n\n        # 3)",
+         new="            if (key := (s.space, \"\")) not in used:\n                used[key] = set()\n            used[key].add(s.name)\n\n        # 3)"),
+    dict(id="c08-ordered-list-reversed", prop="C08", file=E, expect="R08a",
+         old="        sub = order_substitutions(sub)\n\n        if only_build_sub:", new="        sub = order_substitutions(sub)\n        sub.reverse()\n\n        if only_build_sub:"),
+    dict(id="c08-forwarding-helper-raw", prop="C08", file=E, expect="R08a",
+         old="        substituted = self.sympy.subs(order_substitutions(subs))\n",
+         new="        def apply(ordered):\n            return self.sympy.subs(ordered)\n        substituted = apply(list(subs.items()))\n"),
+    dict(id="c08-producer-raw", prop="C08", file=S, expect="R08a",
+         old="            if not isinstance(term.sympy - sub_other_term, Add):\n                return sub\n",
+         new="            if not isinstance(term.sympy - sub_other_term, Add):\n                return [(n, o) for o, n in sub]\n"),
+    dict(id="c08-minimize-spin-lost", prop="C08", file=I, expect="R08g",
+         old="            if spin:\n                spins = spin * n_unique_indices\n            else:\n                spins = None\n            min_symbols",
+         new="            spins = None\n            min_symbols"),
+    dict(id="c08-minimize-target-other-spin", prop="C08", file=I, expect="R08g",
+         old="        space_target = target_idx_names.get(idx_key, [])\n", new="        space_target = target_idx_names.get((idx_key[0], \"\"), [])\n"),
+    dict(id="c08-index-alias-ctor", prop="C08", file=E, expect="R08b",
+         old="            if spin:\n                new_idx = get_symbols(new_idx, spin * len(idx_list))\n            else:\n                new_idx = get_symbols(new_idx)",
+         new="            if spin:\n                new_idx = get_symbols(new_idx, spin * len(idx_list))\n            else:\n                from .indices import Index as Idx\n                new_idx = [Idx(n) for n in new_idx]"),
+    dict(id="c08-compatible-terms-raw", prop="C08", file=S, expect="R08a",
+         old="                    compatible_terms[term_i][other_term_i] = sub", new="                    compatible_terms[term_i][other_term_i] = dict(sub)"),
+    dict(id="c08-diag-fock-raw", prop="C08", file=E, expect="R08a",
+         old="                return diag.subs(order_substitutions(sub))", new="                return diag.subs(sub)"),
+    dict(id="c08-length-guard", prop="C08", file=I, expect="R08d", old="        if len(indices) != len(spins):", new="        if len(indices) < len(spins):"),
+    dict(id="c08-pairing-reversed", prop="C08", file=E, expect="R08e",
+         old="            sub.update({o: n for o, n in zip(idx_list, new_idx)})", new="            sub.update({o: n for o, n in zip(idx_list, reversed(new_idx))})"),
+    dict(id="c08-generic-spin-lost", prop="C08", file=E, expect="R08e",
+         old="        kwargs = {f\"{space}_{spin}\" if spin else space: len(indices)", new="        kwargs = {space: len(indices)"),
+]
